@@ -30,6 +30,10 @@ RTOL = 1e-9
 # stateless samplers whose plain sample(N, Nb) adapts during burn-in: sample(N, Nb) is not a suffix of sample(N+Nb, 0),
 # so their chain is reconstructed from the states reported at transition time instead of an independent second run
 ADAPTS_IN_SAMPLE = {"NUTS"}
+# attributes of the stateful samplers that a transition reads and replaces (compared after a checkpoint is loaded)
+STATE_ATTRS = ("current_point", "current_target_logd", "current_target_grad", "current_likelihood_logd", "scale",
+               "_scale_temp", "lambd", "_epsilon", "_epsilon_bar", "_H_bar", "max_depth")
+TAIL = 6     # extra transitions made after a behaviour that loaded a checkpoint (divergence may need a few steps to show)
 
 
 def _cols(A):
@@ -197,10 +201,10 @@ def reference_run(driver, seed, warm, K):
 def run_behaviour(ctx, name, driver_cls, factory, case, seed, workdir, ref_cache, legacy_gibbs=False):
     """Execute one TLC behaviour (stateful interface) on fresh instances; compare after every operation."""
     warm, prog = case["warm"], case["prog"]
-    K = max([e["k"] for e in prog] + [1]) + 1
+    K = max([e["k"] for e in prog] + [1]) + 1 + TAIL
     key = (name, warm)
     if key not in ref_cache or len(ref_cache[key][0]["pt"]) <= K:
-        ref_cache[key] = reference_run(driver_cls(factory, workdir), seed, warm, max(K, 14))
+        ref_cache[key] = reference_run(driver_cls(factory, workdir), seed, warm, max(K, 22))
     rec, _ = ref_cache[key]
     S, RNG = rec["pt"], rec["rng"]
 
@@ -232,6 +236,25 @@ def run_behaviour(ctx, name, driver_cls, factory, case, seed, workdir, ref_cache
                 if not drv.has_ckpt:
                     return
                 drv.fresh_load(saved)
+                # the loaded sampler must be in the state of the uninterrupted run at the checkpoint: compare the attributes
+                # a transition reads (chain point, cached evaluations, tuned parameters) with a twin run uninterrupted to k
+                twin = driver_cls(factory, workdir)
+                np.random.seed(seed)
+                twin.construct()
+                if warm:
+                    twin.warmup(warm)
+                if e["start"] - warm > 0:
+                    twin.sample(e["start"] - warm)
+                for attr in STATE_ATTRS:
+                    if hasattr(twin.obj, attr) and hasattr(drv.obj, attr):
+                        a, b = getattr(twin.obj, attr), getattr(drv.obj, attr)
+                        if a is None or b is None or callable(a):
+                            continue
+                        if not _eq(a, b):
+                            ctx.mismatch(sig("resume_state/" + attr), dict(case, sampler=name, pos=pos),
+                                         "after loading the checkpoint taken at k=%d into a fresh sampler, %s differs from the "
+                                         "uninterrupted run at that point" % (e["start"], attr), a, b)
+                            return
                 np.random.set_state(RNG[e["start"]])      # RestoreStream: position of the uninterrupted run at the checkpoint
                 seen_prefix = None
             elif op == "reinit":
@@ -287,6 +310,22 @@ def run_behaviour(ctx, name, driver_cls, factory, case, seed, workdir, ref_cache
                                  "callback %d received (state, index) other than (S(%d), %d)" % (j, hist[j], j),
                                  expected=[S[hist[j]], j], observed=[val, idx])
                     return
+    if drv.has_ckpt and any(e["op"] == "freshload" for e in prog) and prog[-1]["k"] + TAIL < len(S):
+        e = prog[-1]
+        try:
+            drv.sample(TAIL)
+            chain = drv.chain()
+        except Exception as ex:
+            ctx.mismatch(sig("error/tail"), dict(case, sampler=name), "sampling after the behaviour raised %s" % type(ex).__name__)
+            return
+        for j in range(TAIL):
+            kidx = e["k"] + 1 + j
+            col = len(e["hist"]) + j
+            if chain.shape[1] <= col or not _eq(chain[:, col], S[kidx]):
+                ctx.mismatch(sig("resume"), dict(case, sampler=name, tail=j),
+                             "state %d after the loaded checkpoint is not state S(%d) of the uninterrupted run" % (col, kidx),
+                             S[kidx], chain[:, col] if chain.shape[1] > col else None)
+                return
     ctx.traces += 1
 
 
@@ -446,6 +485,8 @@ def trace_facet(ctx, workdir):
     # demonstrate the binding: corrupt one field / remove one event of an accepted trace -> must be rejected
     good = next((t for v, t in zip(verdicts, traces) if v["ok"] and any(e["e"] == "cb" for e in t["events"])), None)
     if good is None:
+        if ctx.violations:
+            return          # every trace of a broken tree is rejected: the violations stand, nothing to self-test
         raise MachineryError("no accepted trace with a callback event: trace facet is vacuous")
 
     def bump_idx(ev):
